@@ -728,6 +728,17 @@ def two_message_outputs(quick):
 def proc_cases(rng, quick):
     """c10.proc: the free-running in-process client that returns (nil / error) after reading r of n requests"""
     names = ["t0", "Suite/t1", "t2", "t-three", "t4"]
+    # the client function returns at once, BEFORE runClient registers its whenDone callback (6th argument 1)
+    for n in ((0, 1, 3) if quick else (0, 1, 2, 3, 4)):
+        for failed in (0, 1):
+            yield ["c10.proc", names[:n], 0, [], failed, 0, 1]
+    # registrations and the exit on a real localProcess, every order of <= 3 (4) steps over two callbacks
+    alphabet = ([0, 0], [0, 1], [1])
+    for length in range(1, 4 if quick else 5):
+        for seq in itertools.product(alphabet, repeat=length):
+            yield ["c10.whendone", [list(a) for a in seq]]
+    for _ in range(10 if quick else 200):
+        yield ["c10.whendone", [[1] if rng.random() < 0.25 else [0, rng.randint(0, 3)] for _ in range(rng.randint(4, 10))]]
     for n in range(0, 5 if quick else 6):
         for r in range(0, n + 1):
             orders = []
@@ -829,7 +840,7 @@ class C10(Prop):
     models = ("C10_Model",)
     consts = ("cc",)
     packages = {"cc": "internal/app/connectconformance"}
-    kinds = {"c10.script": "cc", "c10.proc": "cc"}
+    kinds = {"c10.script": "cc", "c10.proc": "cc", "c10.whendone": "cc"}
     go_timeout = 600
     rule = ("c10.script: scripts of atomic actions (sender err-check / lock+register / write ok / write failed [closed pipe | request "
             "that cannot be marshalled: invalid UTF-8 in a proto3 string field | scripted stdin failing with a non-pipe error after k "
@@ -858,7 +869,9 @@ class C10(Prop):
             "c10.proc: free-running client function on the real runInProcess (no gates) that reads r of n requests, answers a "
             "permutation of a subset, reads 0/1/4/6 bytes of the next request and RETURNS nil / an error while the sender is inside "
             "that write; compared with the model's canonical schedule (proc_script): per request result + callbacks, reader done, "
-            "waitForResponses, isRunning. Every wait of the Go side is bounded (15 s for the first hang of a binary): a hang is the "
+            "waitForResponses, isRunning; with early = 1 the client function returns at once and the starter hands the process to runClient "
+            "only after it has ended (whenDone registered on a finished process; proc_script_early). c10.whendone: registrations and the "
+            "exit in every order of <= 3 steps (+ random longer ones) on a real localProcess, runs per callback. Every wait of the Go side is bounded (15 s for the first hang of a binary): a hang is the "
             "outcome (hang <where>) of that case. extra: free-running -race stress (responses kept and re-read there too)")
     trusted_base = ("Coq 8.16.1 kernel (vm_compute used, native_compute not)", "extraction (ExtrOcamlBasic only) + ocaml/driver.ml",
                     "vlib generators/comparator, Go overlay harness (harness/C10)",
@@ -888,7 +901,10 @@ class C10(Prop):
                   "flight returns; from every reachable state the system can be driven to completion (no deadlock); the reader of the client's "
                   "output is handed the client limit, not the server-response limit: for ALL sizes an answer up to the client limit - the "
                   "window between the two regenerated constants is proved non-empty - is delivered to its own test's callback exactly once "
-                  "with every other pending test untouched, a larger one stops the reader at the prefix (limits_wired). "
+                  "with every other pending test untouched, a larger one stops the reader at the prefix (limits_wired); the exit notice "
+                  "(localProcess.whenDone) reaches every registered callback exactly once for EVERY interleaving of registrations and the "
+                  "exit - runClient registers after start() returned, the client may already be gone (exit_notice_any_order, "
+                  "runner_notice_both_orders). "
                   "The model is tied to client_runner.go by forced-schedule differential runs on every check.")
     level_note = ("Trusted: Coq kernel, extraction, OCaml driver, harness. Model-code correspondence is sampled (systematic + "
                   "exhaustive small scope + random), not proved; only schedules the harness can force are compared (a sender cannot "
@@ -898,7 +914,11 @@ class C10(Prop):
                   "runInProcess (it ends the whole test binary) and is not modelled; cmdProcess (OS processes) is C04's. "
                   "Multi-megabyte answers are not built inside the model: the decoder replaces a padded answer the wiring lets through by "
                   "the plain answer's frame (proved equivalent at a frame boundary: padded_answer_read_like_plain); the Go side writes the "
-                  "real bytes. The server-response reader itself belongs to C09 / C11.")
+                  "real bytes. The server-response reader itself belongs to C09 / C11. "
+                  "whenDone is modelled as it is written today (one parked goroutine per registration); the order 'client function returned "
+                  "before runClient registers' is forced by a starter wrapped around the real runInProcess starter (c10.proc early = 1) and "
+                  "by calling whenDone on a finished real localProcess (c10.whendone); the order in which several callbacks run is not compared, "
+                  "a callback that runs twice is seen only if the second run happens before the counts are read.")
     technique = "Coq invariant proofs over arbitrary action lists; forced-schedule differential against the real runner; -race stress"
 
     def nontrivial(self, case, res):
